@@ -7,7 +7,7 @@
    That the typed lists are what the formatted file says is C15 (coherence). *)
 From Coq Require Import Sorted Permutation.
 From Verif.Base Require Import Bytes.
-From Verif.Modfile Require Import EditModel EditOps EditSpec EditProofsTyped EditProofsSort EditProofsExact EditProofsSetRequire EditProofsLines EditProofs2Blocks EditProofs2Sri EditProofs2Inv EditProofs2Separate EditProofs2Order EditProofs2Sorted.
+From Verif.Modfile Require Import Syntax EditModel EditOps EditSpec EditProofsTyped EditProofsSort EditProofsExact EditProofsSetRequire EditProofsLines EditProofs2Blocks EditProofs2Sri EditProofs2Inv EditProofs2Separate EditProofs2Order EditProofs2Sorted EditProofs2Place EditProofs2NeedOrder EditProofs2NeedOrderSri EditProofs2Quote.
 
 (* SetRequire: whatever the file held before (duplicates, cleared entries, any block
    structure), if the call does not panic the requirements are exactly the requested
@@ -202,13 +202,81 @@ Theorem C16_sort_block_determined : forall f b lines',
 Proof. exact sort_block_determined. Qed.
 Print Assumptions C16_sort_block_determined.
 
-(* NOT PROVED (validated by the correspondence run and the Go oracles only):
+(* ---- need_order_irrelevant.  SetRequire, SetRequireSeparateIndirect and SetUse add the entries that
+   are not yet in the file by ranging over a Go map, i.e. in an unspecified order; the model
+   ranges in key order.  [set_require_enum enum], [set_require_separate_indirect_enum enum],
+   [set_use_enum enum] (Modfile/EditProofs2NeedOrder*.v) are the three operations with the map
+   enumerated by an ARBITRARY function [enum] that returns a permutation of the map's entries;
+   with the identity they are the model's operations.  Whatever [enum] is: the syntax tree of the
+   result ([to_syntax]: the heap model rendered as a FileSyntax, line identities dropped) is
+   the same, the Require / Use list is the same multiset, all other typed lists are equal.
+   Hypotheses: the C15 invariant, and distinct requested paths stay distinct when written
+   (AutoQuote; it is injective on byte strings). *)
+Theorem C16_enum_identity_is_the_model : forall f,
+  (forall l, set_require_enum (fun m => m) f l = set_require f l) /\
+  (forall l, set_require_separate_indirect_enum (fun m => m) f l = set_require_separate_indirect f l) /\
+  (forall l, set_use_enum (fun m => m) f l = set_use f l).
+Proof. intros f. split; [|split]; intros l; reflexivity. Qed.
+Print Assumptions C16_enum_identity_is_the_model.
 
+Theorem C16_need_order_irrelevant_set_require : forall enum f l f' name,
+  (forall m, Permutation m (enum m)) ->
+  distinct_paths (map req_path l) = true -> NoDup (map (fun q => auto_quote (req_path q)) l) ->
+  Coherent f -> BlockIdsOk (fsyn f) -> HeapSettable (fsyn f) ->
+  set_require f l = Some f' ->
+  exists f'', set_require_enum enum f l = Some f'' /\
+    to_syntax name (fsyn f'') = to_syntax name (fsyn f') /\
+    Permutation (k_require (abs f'')) (k_require (abs f')) /\
+    kset_require (abs f'') [] = kset_require (abs f') [].
+Proof. exact set_require_need_order_irrelevant. Qed.
+Print Assumptions C16_need_order_irrelevant_set_require.
+
+Theorem C16_need_order_irrelevant_set_require_separate : forall enum f l f' name,
+  (forall m, Permutation m (enum m)) ->
+  distinct_paths (map req_path l) = true -> NoDup (map (fun q => auto_quote (req_path q)) l) ->
+  Coherent f -> BlockIdsOk (fsyn f) -> RequireSettable f ->
+  set_require_separate_indirect f l = Some f' ->
+  exists f'', set_require_separate_indirect_enum enum f l = Some f'' /\
+    to_syntax name (fsyn f'') = to_syntax name (fsyn f') /\
+    Permutation (k_require (abs f'')) (k_require (abs f')) /\
+    kset_require (abs f'') [] = kset_require (abs f') [].
+Proof. exact set_require_separate_need_order_irrelevant. Qed.
+Print Assumptions C16_need_order_irrelevant_set_require_separate.
+
+Theorem C16_need_order_irrelevant_set_use : forall enum f (l : list (str * str)) f' name,
+  (forall m, Permutation m (enum m)) ->
+  distinct_paths (map fst l) = true -> NoDup (map (fun q => auto_quote (fst q)) l) ->
+  Coherent f -> BlockIdsOk (fsyn f) -> HeapSettable (fsyn f) ->
+  set_use f l = Some f' ->
+  exists f'', set_use_enum enum f l = Some f'' /\
+    to_syntax name (fsyn f'') = to_syntax name (fsyn f') /\
+    Permutation (k_use (abs f'')) (k_use (abs f')) /\
+    kset_use (abs f'') [] = kset_use (abs f') [].
+Proof. exact set_use_need_order_irrelevant. Qed.
+Print Assumptions C16_need_order_irrelevant_set_use.
+
+(* the AutoQuote hypothesis holds for byte strings (every Go string): AutoQuote is injective,
+   so requested paths that are pairwise different are written as pairwise different tokens *)
+Theorem C16_auto_quote_injective : forall a b,
+  Forall (fun c => 0 <= c < 256) a -> Forall (fun c => 0 <= c < 256) b -> auto_quote a = auto_quote b -> a = b.
+Proof. exact auto_quote_inj. Qed.
+Print Assumptions C16_auto_quote_injective.
+
+Theorem C16_distinct_paths_distinct_tokens : forall l : list req,
+  NoDup (map req_path l) -> Forall (fun q => Forall (fun c => 0 <= c < 256) (req_path q)) l ->
+  NoDup (map (fun q => auto_quote (req_path q)) l).
+Proof. intros l. exact (nodup_auto_quote req_path l). Qed.
+Print Assumptions C16_distinct_paths_distinct_tokens.
+
+(* what makes this work: addLine with a nil hint is a function of the statement list — the new
+   line goes to the LAST statement headed by the verb (Modfile/EditProofs2Place.v) *)
+Theorem C16_add_line_nil_hint_spec : forall s verb args,
+  NoDup (map fst (tree_lines s)) -> NoDup (block_ids (stmts s)) ->
+  add_place s verb args (fst (add_line s None verb args)) /\ snd (add_line s None verb args) = length (heap s).
+Proof. exact add_line_none_spec. Qed.
+Print Assumptions C16_add_line_nil_hint_spec.
+
+(* NOT PROVED here:
    kept_comments_survive — proved in the stronger per-line form as C08_comments_kept_*:
      SetRequire / SetRequireSeparateIndirect / SetUse may change the comments of the
-     require / use lines only; which change setIndirect makes is [set_indirect_line].
-
-   need_order_irrelevant : the result of the bulk setters does not depend on the order in
-     which the remaining [need] entries are added.  The model adds them in key order; the
-     harness runs every sequence three times under Go's randomised map order and all
-     observables except the ORDER of File.Require / WorkFile.Use agree. *)
+     require / use lines only; which change setIndirect makes is [set_indirect_line]. *)
